@@ -12,6 +12,7 @@
   canonical path.  The file system `fs` is fixed during a run.
 -/
 import RsjProofs.Import
+import RsjProofs.ImportOnce
 import RsjProofs.Utf8Lossy
 namespace Rsj.Import
 
@@ -221,21 +222,78 @@ theorem C13_thisFile_is_load_path (fs : FS) (parses : List Nat → Bool) (s : Se
       cases h
       simp
 
-/-- **C13 evaluated once — full statement (NOT proved).** On the whole-run
-    evaluator of the tie (`runRoot`: deep, depth-first evaluation of "node" files
-    with thunk memoisation), when different files carry different ids, no id is
-    traced twice: every file is evaluated at most once however many spellings and
-    importers reach it. -/
+/-- **C13 evaluated once — the statement as first written: FALSE for the model**
+    (kept for the record; refuted by `C13_evaluated_once_full_false`).  It asks that
+    the ids *listed in `progs`* be distinct, but `progs` is keyed by the *bytes* of a
+    file (`progOf`): two files at different canonical locations with identical bytes
+    are different files (two cache keys, two thunks) that share one `Prog`, hence one
+    id, and that id is traced once per file.  The hypothesis therefore does not say
+    "different files carry different ids".  The corrected statement is
+    `C13_evaluated_once` below. -/
 def C13_evaluated_once_full : Prop :=
   ∀ (fs : FS) (progs : List (List Nat × Prog)) (jl : List String) (root : String),
     (progs.map (fun p => p.2.id)).Nodup → (runRoot fs progs jl root).1.traces.Nodup
 
-/-- **C13 evaluated once — proved part.** The session hands out *one thunk* per
+/-- Witness: `/r` imports `/a` and `/b`, two distinct files with the same bytes. -/
+def onceFS : FS :=
+  { cwd := [], entries := [(["r"], .file [0] true), (["a"], .file [1] true), (["b"], .file [1] true)] }
+def onceProgs : List (List Nat × Prog) :=
+  [([0], { id := "r", ops := [(.code, "/a"), (.code, "/b")] }), ([1], { id := "x", ops := [] })]
+
+/-- The statement as first written does not hold: on the witness the trace is `["r", "x", "x"]`. -/
+theorem C13_evaluated_once_full_false : ¬ C13_evaluated_once_full := by
+  intro h
+  exact absurd (h onceFS onceProgs [] "/r" (by decide)) (by decide)
+
+/-- **C13 evaluated_once (corrected, proved in full).** On the whole-run evaluator of
+    the tie (`runRoot`: deep, depth-first evaluation of "node" files with thunk
+    memoisation), when *files at different real locations carry different ids*
+    (`DistinctIds`: any two readable files of the tree that are node files with the
+    same id are stored at the same location), no id is traced twice: every file is
+    evaluated at most once however many spellings, symlinks, `-J` directories and
+    importers reach it, on every run — successful, failing, cyclic, or out of fuel.
+    (Proof: `RsjProofs/ImportOnce.lean`, invariant "every traced id belongs to a
+    cached thunk that is memoised or on the stack" through `evalThunk`'s fold.) -/
+theorem C13_evaluated_once (fs : FS) (progs : List (List Nat × Prog)) (jl : List String) (root : String)
+    (hdistinct : ∀ (loc1 loc2 : List String) (b1 b2 : List Nat) (p1 p2 : Prog),
+      fs.lookup loc1 = some (.file b1 true) → fs.lookup loc2 = some (.file b2 true) →
+      progOf progs b1 = some p1 → progOf progs b2 = some p2 → p1.id = p2.id → loc1 = loc2) :
+    (runRoot fs progs jl root).1.traces.Nodup :=
+  runRoot_traces_nodup fs progs jl root hdistinct
+
+/-- The same with the hypothesis of the first statement plus what it was missing:
+    the listed ids are distinct *and* node files at different locations have
+    different bytes (true of every generated tree: the id is part of the bytes). -/
+theorem C13_evaluated_once_of_nodup_ids (fs : FS) (progs : List (List Nat × Prog)) (jl : List String)
+    (root : String) (hid : (progs.map (fun p => p.2.id)).Nodup)
+    (hbytes : ∀ (loc1 loc2 : List String) (b : List Nat), fs.lookup loc1 = some (.file b true) →
+      fs.lookup loc2 = some (.file b true) → (progOf progs b).isSome → loc1 = loc2) :
+    (runRoot fs progs jl root).1.traces.Nodup :=
+  runRoot_traces_nodup fs progs jl root (distinctIds_of_nodup hid hbytes)
+
+/-- Non-vacuity: a tree in which `/t/w/root` reaches `/t/j/x` by three spellings (a
+    symlink, a `-J` hit, an absolute path); the hypothesis holds (checked with the
+    executable criterion `distinctIdsB`, sound by `distinctIds_of_check`) and the run
+    traces `["root", "x"]`. -/
+def onceFS2 : FS :=
+  { cwd := ["t", "w"]
+    entries := [(["t"], .dir), (["t", "w"], .dir), (["t", "j"], .dir),
+      (["t", "w", "root"], .file [0] true), (["t", "j", "x"], .file [1] true),
+      (["t", "w", "ln"], .link "../j/x"), (["t", "w", "copy"], .file [2] true)] }
+def onceProgs2 : List (List Nat × Prog) :=
+  [([0], { id := "root", ops := [(.code, "ln"), (.code, "x"), (.code, "/t/j/x"), (.bin, "copy")] }),
+   ([1], { id := "x", ops := [] })]
+example : DistinctIds onceFS2 onceProgs2 := distinctIds_of_check (by decide)
+example : (runRoot onceFS2 onceProgs2 ["../j"] "root").1.traces = ["root", "x"] := by decide
+/-- ... and the witness of the refutation violates the corrected hypothesis, as it must. -/
+example : ¬ DistinctIds onceFS onceProgs := by
+  intro h
+  exact absurd (h ["a"] ["b"] [1] [1] _ _ rfl rfl rfl rfl rfl) (by decide)
+
+/-- **C13 evaluated once — session part** (superseded by `C13_evaluated_once`, kept
+    because it speaks about arbitrary `parses`).  The session hands out *one thunk* per
     canonical file (this is `C13_same_file_same_thunk`, restated for two imports in
-    direct succession) and loads it once (`C13_load_once`).  Missing for
-    `C13_evaluated_once_full`: the induction over `evalThunk`'s fold carrying the
-    invariant "every traced thunk is memoised or on the stack"; that a thunk is
-    evaluated at most once is property C11 (memoisation), and the number of TRACE
+    direct succession) and loads it once (`C13_load_once`).  The number of TRACE
     lines per file is checked on the real binary by checks/c13.py. -/
 theorem C13_evaluated_once_partial (fs : FS) (parses : List Nat → Bool) (s s1 : Session)
     (f1 f2 : Nat) (p1 p2 full1 full2 : String) (t : Nat)
@@ -389,6 +447,12 @@ open Rsj.Import in
 #print axioms C13_same_file_same_thunk
 open Rsj.Import in
 #print axioms C13_evaluated_once_partial
+open Rsj.Import in
+#print axioms C13_evaluated_once_full_false
+open Rsj.Import in
+#print axioms C13_evaluated_once
+open Rsj.Import in
+#print axioms C13_evaluated_once_of_nodup_ids
 open Rsj.Import in
 #print axioms C13_thisFile_is_load_path
 open Rsj.Import in
